@@ -6,7 +6,8 @@
 #include "sdo_client.h"
 
 #define NPROBE 7
-static uint64_t probe_ref[NPROBE]; static long probe_ref_frames[NPROBE];
+static uint64_t probe_ref[CO_SSDO_N][NPROBE]; static long probe_ref_frames[CO_SSDO_N][NPROBE];
+static int PSRV;      /* server the clean transfers run on: every configured server has to recover */
 static uint8_t *probe_snap; static long probe_runs;
 static uint8_t  PAY[SDO_DS2 + 8];
 
@@ -16,23 +17,23 @@ static int probe_T(int p, char *why, size_t n)
     #define EXPECT_OK(call, what) do { r = (call); if (r != CL_OK) { snprintf(why, n, "%s: %s (abort %08X) %s", what, r == CL_ABORT ? "aborted" : "protocol error", cl_abort, r == CL_PROTOCOL ? cl_err : ""); return 1; } } while (0)
     #define EXPECT_DATA(i, what) do { if (len != OBJ[i].size || memcmp(buf, MV[i], len)) { snprintf(why, n, "%s: uploaded %u byte(s) differ from the object (%u bytes)", what, len, OBJ[i].size); return 1; } } while (0)
     switch (p) {
-    case 0: EXPECT_OK(cl_exp_dl(0, 0x2002, 0, PAY, 4, 1), "expedited download u32");
-            EXPECT_OK(cl_upload(0, 0x2002, 0, buf, sizeof buf, &len, &ann), "expedited upload u32"); EXPECT_DATA(O_U32, "u32"); break;
-    case 1: EXPECT_OK(cl_upload(0, 0x2010, 0, buf, sizeof buf, &len, &ann), "expedited upload 3-byte domain"); EXPECT_DATA(O_DOM3, "dom3");
-            EXPECT_OK(cl_exp_dl(0, 0x2010, 0, PAY, 3, 1), "expedited download 3-byte domain");
-            EXPECT_OK(cl_upload(0, 0x2010, 0, buf, sizeof buf, &len, &ann), "expedited upload 3-byte domain again"); EXPECT_DATA(O_DOM3, "dom3"); break;
-    case 2: EXPECT_OK(cl_seg_dl(0, 0x2011, 0, PAY, SDO_DS1, 1), "segmented download");
-            EXPECT_OK(cl_upload(0, 0x2011, 0, buf, sizeof buf, &len, &ann), "segmented upload"); EXPECT_DATA(O_DOMA, "domA"); break;
-    case 3: EXPECT_OK(cl_seg_dl(0, 0x2012, 0, PAY, SDO_DS2, 0), "segmented download without size");
-            EXPECT_OK(cl_upload(0, 0x2012, 0, buf, sizeof buf, &len, &ann), "segmented upload"); EXPECT_DATA(O_DOMB, "domB"); break;
-    case 4: EXPECT_OK(cl_blk_dl(0, 0x2012, 0, PAY, SDO_DS2, 1, 0, 0), "block download");
-            EXPECT_OK(cl_blk_ul(0, 0x2012, 0, 2, buf, sizeof buf, &len, &ann, 0, 0, 0, 0), "block upload"); EXPECT_DATA(O_DOMB, "domB"); break;
+    case 0: EXPECT_OK(cl_exp_dl(PSRV, 0x2002, 0, PAY, 4, 1), "expedited download u32");
+            EXPECT_OK(cl_upload(PSRV, 0x2002, 0, buf, sizeof buf, &len, &ann), "expedited upload u32"); EXPECT_DATA(O_U32, "u32"); break;
+    case 1: EXPECT_OK(cl_upload(PSRV, 0x2010, 0, buf, sizeof buf, &len, &ann), "expedited upload 3-byte domain"); EXPECT_DATA(O_DOM3, "dom3");
+            EXPECT_OK(cl_exp_dl(PSRV, 0x2010, 0, PAY, 3, 1), "expedited download 3-byte domain");
+            EXPECT_OK(cl_upload(PSRV, 0x2010, 0, buf, sizeof buf, &len, &ann), "expedited upload 3-byte domain again"); EXPECT_DATA(O_DOM3, "dom3"); break;
+    case 2: EXPECT_OK(cl_seg_dl(PSRV, 0x2011, 0, PAY, SDO_DS1, 1), "segmented download");
+            EXPECT_OK(cl_upload(PSRV, 0x2011, 0, buf, sizeof buf, &len, &ann), "segmented upload"); EXPECT_DATA(O_DOMA, "domA"); break;
+    case 3: EXPECT_OK(cl_seg_dl(PSRV, 0x2012, 0, PAY, SDO_DS2, 0), "segmented download without size");
+            EXPECT_OK(cl_upload(PSRV, 0x2012, 0, buf, sizeof buf, &len, &ann), "segmented upload"); EXPECT_DATA(O_DOMB, "domB"); break;
+    case 4: EXPECT_OK(cl_blk_dl(PSRV, 0x2012, 0, PAY, SDO_DS2, 1, 0, 0), "block download");
+            EXPECT_OK(cl_blk_ul(PSRV, 0x2012, 0, 2, buf, sizeof buf, &len, &ann, 0, 0, 0, 0), "block upload"); EXPECT_DATA(O_DOMB, "domB"); break;
     case 5: { int lose[1] = { 1 }, db[1] = { 0 }, da[1] = { 1 }, dbs[1] = { 3 };
-            EXPECT_OK(cl_blk_dl(0, 0x2012, 0, PAY, SDO_DS2, 0, lose, 1), "block download with a lost segment");
-            EXPECT_OK(cl_blk_ul(0, 0x2012, 0, 3, buf, sizeof buf, &len, &ann, db, da, dbs, 1), "block upload with partial acknowledge"); EXPECT_DATA(O_DOMB, "domB"); break; }
-    case 6: EXPECT_OK(cl_upload(0, 0x2022, 0, buf, sizeof buf, &len, &ann), "segmented upload string"); EXPECT_DATA(O_STR12, "str12");
-            EXPECT_OK(cl_upload(0, 0x2020, 0, buf, sizeof buf, &len, &ann), "expedited upload string"); EXPECT_DATA(O_STR3, "str3");
-            EXPECT_OK(cl_blk_ul(0, 0x2021, 0, 127, buf, sizeof buf, &len, &ann, 0, 0, 0, 0), "block upload string"); EXPECT_DATA(O_STR5, "str5"); break;
+            EXPECT_OK(cl_blk_dl(PSRV, 0x2012, 0, PAY, SDO_DS2, 0, lose, 1), "block download with a lost segment");
+            EXPECT_OK(cl_blk_ul(PSRV, 0x2012, 0, 3, buf, sizeof buf, &len, &ann, db, da, dbs, 1), "block upload with partial acknowledge"); EXPECT_DATA(O_DOMB, "domB"); break; }
+    case 6: EXPECT_OK(cl_upload(PSRV, 0x2022, 0, buf, sizeof buf, &len, &ann), "segmented upload string"); EXPECT_DATA(O_STR12, "str12");
+            EXPECT_OK(cl_upload(PSRV, 0x2020, 0, buf, sizeof buf, &len, &ann), "expedited upload string"); EXPECT_DATA(O_STR3, "str3");
+            EXPECT_OK(cl_blk_ul(PSRV, 0x2021, 0, 127, buf, sizeof buf, &len, &ann, 0, 0, 0, 0), "block upload string"); EXPECT_DATA(O_STR5, "str5"); break;
     default: break;
     }
     return 0;
@@ -59,12 +60,13 @@ static void probe_init(void)
     for (unsigned i = 0; i < sizeof PAY; i++) PAY[i] = (uint8_t)(0xC1 + 3 * i);
     if (!probe_snap) probe_snap = malloc(w_snap_size());
     w_save(probe_snap);
-    for (int p = 0; p < NPROBE; p++) {
+    for (PSRV = 0; PSRV < CO_SSDO_N; PSRV++) for (int p = 0; p < NPROBE; p++) {
         w_restore(probe_snap); w_obs_clear();
         cl_trace = 0; cl_frames = 0;
-        if (probe_T(p, why, sizeof why)) { fprintf(stderr, "c05: probe %d fails on the fresh node: %s\n", p, why); mc_fail("c05-probe-fails-on-fresh-node", "probe %d: %s", p, why); }
-        probe_ref[p] = cl_trace; probe_ref_frames[p] = cl_frames;
+        if (probe_T(p, why, sizeof why)) { fprintf(stderr, "c05: probe %d fails on the fresh node: %s\n", p, why); mc_fail("c05-probe-fails-on-fresh-node", "probe %d on server %d: %s", p, PSRV, why); }
+        probe_ref[PSRV][p] = cl_trace; probe_ref_frames[PSRV][p] = cl_frames;
     }
+    PSRV = 0;
     w_restore(probe_snap); w_obs_clear();
 }
 
@@ -72,19 +74,20 @@ static void probe_state(void)
 {
     char why[300]; struct WObs keep = OBS;
     w_save(probe_snap);
-    for (int pre = 0; pre < 2; pre++) for (int p = 0; p < NPROBE; p++) {
+    for (PSRV = 0; PSRV < CO_SSDO_N; PSRV++) for (int pre = 0; pre < 2; pre++) for (int p = 0; p < NPROBE; p++) {
         w_restore(probe_snap); w_obs_clear();
         probe_prefix(pre);
         w_obs_clear();
         cl_trace = 0; cl_frames = 0; probe_runs++;
         sdo_ctx = pre ? "[probe after NMT reset communication] " : "[probe after client abort] ";
         if (probe_T(p, why, sizeof why))
-            mc_fail("c05-recovery-fails", "after %s, clean transfer #%d does not succeed: %s", pre ? "NMT reset communication" : "a client abort", p, why);
-        else if (cl_trace != probe_ref[p] || cl_frames != probe_ref_frames[p])
-            mc_fail("c05-recovery-differs", "after %s, the frames of clean transfer #%d (%ld frames) differ from those of a freshly initialised node (%ld frames)",
-                    pre ? "NMT reset communication" : "a client abort", p, cl_frames, probe_ref_frames[p]);
+            mc_fail("c05-recovery-fails", "after %s, clean transfer #%d on server %d does not succeed: %s", pre ? "NMT reset communication" : "a client abort", p, PSRV, why);
+        else if (cl_trace != probe_ref[PSRV][p] || cl_frames != probe_ref_frames[PSRV][p])
+            mc_fail("c05-recovery-differs", "after %s, the frames of clean transfer #%d on server %d (%ld frames) differ from those of a freshly initialised node (%ld frames)",
+                    pre ? "NMT reset communication" : "a client abort", p, PSRV, cl_frames, probe_ref_frames[PSRV][p]);
         sdo_ctx = "";
     }
+    PSRV = 0;
     w_restore(probe_snap);
     OBS = keep;
 }
